@@ -72,6 +72,11 @@ def strategy_(draw, tier):
         par = draw(st.lists(st.sampled_from(names), min_size=1,
                             max_size=len(names), unique=True))
         spec.update(kind='sched', parallel=sorted(par), shutdown=shutdown)
+        # a schema override naming one process (often a parallel one) must
+        # reach it however it is run
+        if draw(st.booleans()):
+            spec['override'] = draw(st.sampled_from(
+                [p['name'] for p in spec['procs']]))
         if shutdown == 'end_pending':
             spec['calls'][-1]['op'] = 'run_for'
             spec['calls'][-1]['force'] = False
@@ -181,6 +186,9 @@ def build_sched(spec, ctx, parallel):
                   'salt': i + 1, 'record': False, 'setlast': True}
         if parallel and p['name'] in spec['parallel']:
             params['_parallel'] = True
+        if spec.get('override') == p['name']:
+            params['_schema'] = {'own': {'acc': {'_default': 1000,
+                                                  '_emit': True}}}
         processes[p['name']] = kit.RecProcess(params)
         topology[p['name']] = {'own': ('own', p['name']),
                                'shared': ('shared',)}
